@@ -176,7 +176,12 @@ struct aws_thread_scheduler *aws_thread_scheduler_new(
     aws_linked_list_init(&scheduler->thread_data.scheduling_queue);
     aws_linked_list_init(&scheduler->thread_data.cancel_queue);
 
-    if (aws_thread_launch(&scheduler->thread, s_thread_fn, scheduler, thread_options)) {
+    /* The destroy callback joins this thread before it frees the scheduler, so the thread has to be joinable whatever
+     * join strategy the caller's options ask for (aws_thread_join() does nothing for a managed thread). */
+    struct aws_thread_options launch_options = thread_options ? *thread_options : *aws_default_thread_options();
+    launch_options.join_strategy = AWS_TJS_MANUAL;
+
+    if (aws_thread_launch(&scheduler->thread, s_thread_fn, scheduler, &launch_options)) {
         goto scheduler_init;
     }
 
